@@ -21,11 +21,8 @@ mod imp {
    /// a delta view may over-approximate within the closure (sound for semi-naive evaluation) but must cover the new rows
    fn covering(v: &[(u8, u8, u8)], want: &Rows, within: &Rows) -> bool { set3(v).is_superset(want) && set3(v).is_subset(within) }
 
-   /// what the provider is built to hold (`anti_reflexive` is always true): the per-key transitive closure WITHOUT the pairs
-   /// (x, x) that only a cycle implies; a pair (x, x) that was inserted explicitly is kept
-   fn tc(p: &Rows, keys: usize, d: usize) -> Rows {
-      tc_full(p, keys, d).into_iter().filter(|&(k, a, b)| a != b || p.contains(&(k, a, b))).collect()
-   }
+   /// the oracle of every obligation: the per-key transitive closure, including the pairs (x, x) that cycles imply
+   fn tc(p: &Rows, keys: usize, d: usize) -> Rows { tc_full(p, keys, d) }
    /// per-key transitive closure as the rule r(x, z) <-- r(x, y), r(y, z) computes it
    fn tc_full(p: &Rows, keys: usize, d: usize) -> Rows {
       let mut out = Rows::new();
@@ -222,7 +219,7 @@ mod imp {
       let d = read2(&delta);
       let c_all = tc(&offered, 1, D2);
       chk!(r, "trrel_fixpoint_is_the_transitive_closure", d.full_contains == c_all && exact(&d.none_get, &c_all) && exact(&d.i0_get, &c_all) && exact(&d.i1_get, &c_all));
-      // the property itself ("as the rule r(x,z) <-- r(x,y), r(y,z) would produce, including pairs (x,x) implied by cycles")
+      // kept as its own obligation: the clause of the property that the pinned tree violated ("including pairs (x,x) implied by cycles")
       chk!(r, "trrel_cycles_imply_reflexive_pairs", d.full_contains == tc_full(&offered, 1, D2) || d.full_contains != c_all);
       // the other write path: index_insert (BinaryRel::insert) loads facts into `new` before run(); one merge closes them
       let mut n2 = Bin::default();
